@@ -31,6 +31,7 @@ CONSTANTS Thorough = %(thorough)s
  S2 = %(S2)d
  SQ = %(SQ)d
  Off = %(Off)d
+ FS = %(FS)d
 """
 
 NBLOCKS = 64  # MCSubst!NB
@@ -353,9 +354,9 @@ def run(ctx):
     q = ctx.quick
     off = ctx.rng.randrange(0, 997)
     if q:
-        knobs = dict(thorough="FALSE", SS=1, SD=6, S1=6, SE=12, S2=14, SQ=5, Off=off)
+        knobs = dict(thorough="FALSE", SS=1, SD=10, S1=6, SE=10, S2=14, SQ=8, Off=off, FS=1)
     else:
-        knobs = dict(thorough="TRUE", SS=6, SD=24, S1=8, SE=12, S2=20, SQ=6, Off=off)
+        knobs = dict(thorough="TRUE", SS=5, SD=12, S1=8, SE=12, S2=24, SQ=6, Off=off, FS=3)
     desc, groups, feats, ncases = enumerate_cases(ctx, knobs, "main")
     for cls in REQUIRED:
         if feats.get(cls, 0) == 0:
@@ -418,7 +419,7 @@ def replay(ctx, data):
 
 def selftest(ctx):
     """The judge must reject every corrupted observation (and accept the uncorrupted ones)."""
-    knobs = dict(thorough="FALSE", SS=4, SD=1000, S1=1000, SE=1000, S2=1000, SQ=1000, Off=0)
+    knobs = dict(thorough="FALSE", SS=4, SD=100000, S1=1000, SE=1000, S2=1000, SQ=1000, Off=0, FS=1)
     desc, groups, feats, ncases = enumerate_cases(ctx, knobs, "selftest", invariants=False)
     tab, obs, cases = replay_all(ctx, desc, groups)
     guard = corrupt(obs, tab)
